@@ -16,6 +16,7 @@ EXPLANATION = (
     "unfiltered flow to output is a violation; should_show_arg must return false first on is_hide_set(). "
     "R12.2b get_visible_quoted_name yields a name only on the !hide edge. R12.5 the per-section BTreeMap in write_args is keyed by option_sort_key / positional_sort_key, which are built only from short, long, id, index and display order — attributes the validity gate keeps unique — so two visible arguments can never collapse into one entry. R12.4 completeness side: every filter/find/any on an item iteration in help_template/usage consults only the reviewed visibility and sectioning predicates (is_hide_set, should_show_*, get_help_heading, is_positional, is_global_set, ...), so no other predicate can drop a visible item. R12.3 the help error is rendered from the parser's current command. NOT decided: that every visible item is listed, "
     "boundedness of padding for every width."
+    " R12.A accessor layer (lib/accessors.py): for the is_*_set / get_* accessors this property's rules name — the bool builder sets and unsets one flag on the right edges and the predicate reads that same flag; builder scope (global/local) as in audit/setting_scope.tsv; no two predicates/builders share a flag; setting/unset_setting/global_setting/is_set forward to the right flag word, the flag word is |=bit / &=!bit / &bit!=0 with bit = 1<<discriminant, _propagate_subcommand hands g_settings to the child's settings and g_settings; plain field getters return their field."
 )
 TRUSTED = ["rustc MIR", "clapfacts", "lib/panics.py", "audit/panic.tsv"]
 ASSUMPTIONS = ["anstream/unicode-width/terminal_size do not panic", "fmt::Write for StyledStr/String is infallible"]
